@@ -140,16 +140,36 @@ fn cosmos(kind: &str) -> CosmosMsg<Empty> {
 }
 
 fn submsg(kind: &str, prof: u64) -> SubMsg<Empty> {
-    let (id, gas, on, payload): (u64, Option<u64>, ReplyOn, &[u8]) = match prof {
-        1 => (0, None, ReplyOn::Never, b""),
-        2 => (7, Some(500), ReplyOn::Always, b"p"),
-        3 => (9, Some(3), ReplyOn::Never, b"x"),
-        4 => (0, Some(11), ReplyOn::Always, b"zero-id"),      // the id of the first reply handler of a contract, with trigger and payload
-        5 => (1 << 40, None, ReplyOn::Success, b"pay"),
-        6 => (0, None, ReplyOn::Error, b"e"),
-        _ => (1, Some(1), ReplyOn::Error, b""),
+    // payload lengths: nothing, a few bytes, and lengths just past the sizes an implementation might take for limits
+    // (one byte of length, 64 KiB, the 128 KiB a chain allows by default)
+    let (id, gas, on, payload): (u64, Option<u64>, ReplyOn, Vec<u8>) = match prof {
+        1 => (0, None, ReplyOn::Never, vec![]),
+        2 => (7, Some(500), ReplyOn::Always, long_bytes(128 * 1024 + 1)),
+        3 => (9, Some(3), ReplyOn::Never, long_bytes(64 * 1024 + 1)),
+        4 => (0, Some(11), ReplyOn::Always, b"zero-id".to_vec()),      // the id of the first reply handler of a contract, with trigger and payload
+        5 => (1 << 40, None, ReplyOn::Success, long_bytes(257)),
+        6 => (0, None, ReplyOn::Error, b"e".to_vec()),
+        _ => (1, Some(1), ReplyOn::Error, vec![]),
     };
-    SubMsg { id, msg: cosmos(kind), gas_limit: gas, reply_on: on, payload: Binary::from(payload.to_vec()) }
+    SubMsg { id, msg: cosmos(kind), gas_limit: gas, reply_on: on, payload: Binary::from(payload) }
+}
+
+/// `n` bytes, no two neighbouring ones equal (truncation, padding and reordering all show).
+fn long_bytes(n: usize) -> Vec<u8> {
+    (0..n).map(|i| (i % 251) as u8).collect()
+}
+
+/// Long strings are recorded by length and checksum (FNV-1a, 64 bit): both sides of a comparison are recorded the same way.
+fn summ(s: String) -> String {
+    if s.len() <= 96 {
+        return s;
+    }
+    let mut h: u64 = 0xcbf29ce484222325;
+    for b in s.as_bytes() {
+        h ^= *b as u64;
+        h = h.wrapping_mul(0x100000001b3);
+    }
+    format!("<{} chars, fnv1a {:016x}>", s.len(), h)
 }
 
 fn response(s: &Value) -> Response<Empty> {
@@ -158,7 +178,7 @@ fn response(s: &Value) -> Response<Empty> {
         r = r.add_submessage(submsg(m["kind"].as_str().unwrap_or(""), m["prof"].as_u64().unwrap_or(1)));
     }
     for i in 0..s["attrs"].as_u64().unwrap_or(0) {
-        r = r.add_attribute(format!("k{i}"), format!("v{i}"));
+        r = r.add_attribute(format!("k{i}"), if i == 1 { "v".repeat(70_000) } else { format!("v{i}") });      // (one long value)
     }
     for i in 0..s["events"].as_u64().unwrap_or(0) {
         r = r.add_event(Event::new(format!("e{i}")).add_attribute("x", format!("{i}")));
@@ -168,6 +188,7 @@ fn response(s: &Value) -> Response<Empty> {
         "empty" => r = r.set_data(Vec::<u8>::new()),
         "zero" => r = r.set_data(vec![0u8]),
         "bytes" => r = r.set_data(b"data!"),
+        "long" => r = r.set_data(long_bytes(140_000)),
         _ => {}
     }
     r
@@ -190,11 +211,11 @@ fn kind_of<T>(m: &CosmosMsg<T>) -> &'static str {
 fn proj<T: serde::Serialize>(r: &Response<T>) -> Value {
     let msgs: Vec<Value> = r.messages.iter().map(|m| json!({"kind": kind_of(&m.msg), "id": m.id.to_string(),
         "gas": m.gas_limit.map(|g| g.to_string()).unwrap_or_default(), "reply_on": format!("{:?}", m.reply_on),
-        "payload": m.payload.to_base64(), "msg": serde_json::to_string(&m.msg).unwrap_or_default()})).collect();
-    let attrs: Vec<Value> = r.attributes.iter().map(|a| json!([a.key, a.value])).collect();
+        "payload": summ(m.payload.to_base64()), "msg": serde_json::to_string(&m.msg).unwrap_or_default()})).collect();
+    let attrs: Vec<Value> = r.attributes.iter().map(|a| json!([a.key, summ(a.value.clone())])).collect();
     let events: Vec<Value> = r.events.iter().map(|e| json!({"ty": e.ty, "attrs": e.attributes.iter().map(|a| json!([a.key, a.value])).collect::<Vec<_>>()})).collect();
     json!({"msgs": msgs, "attrs": attrs, "events": events, "has_data": r.data.is_some(),
-           "data": r.data.as_ref().map(|d| d.to_base64()).unwrap_or_default()})
+           "data": summ(r.data.as_ref().map(|d| d.to_base64()).unwrap_or_default())})
 }
 
 fn empty_proj() -> Value {
